@@ -168,6 +168,53 @@ func (c *Ctx) condDesc(iff *ssa.If, succ int, loops []*ir.Loop) string {
 	return "!cond:" + c.valueDesc(iff.Cond)
 }
 
+// negDesc returns the decoded condition of the opposite branch.
+func negDesc(d string) string {
+	for _, pair := range [][2]string{{"nonempty(", "empty("}, {"nonnil(", "nil("}, {"present(", "absent("}, {"loop(", "loopdone("}} {
+		if strings.HasPrefix(d, pair[0]) {
+			return pair[1] + strings.TrimPrefix(d, pair[0])
+		}
+		if strings.HasPrefix(d, pair[1]) {
+			return pair[0] + strings.TrimPrefix(d, pair[1])
+		}
+	}
+	if strings.HasPrefix(d, "!") {
+		return d[1:]
+	}
+	return "!" + d
+}
+
+// contradictedEdges returns a Cut function for path queries that start at
+// `from`: a branch edge is cut when its decoded condition is the opposite of a
+// condition that holds at `from` (being inside the body of a loop over X counts
+// as X being non-empty). The conditions name values by access path, so this is
+// only used where the function does not modify those values (Spec edits).
+func (c *Ctx) contradictedEdges(fn *ssa.Function, from ssa.Instruction) func(ir.Edge) bool {
+	facts := map[string]bool{}
+	for _, g := range c.guardsOf(fn, from) {
+		facts[g] = true
+		if strings.HasPrefix(g, "loop(") {
+			facts["nonempty("+strings.TrimPrefix(g, "loop(")] = true
+		}
+	}
+	loops := ir.Loops(fn)
+	memo := map[ir.Edge]bool{}
+	return func(e ir.Edge) bool {
+		if v, ok := memo[e]; ok {
+			return v
+		}
+		res := false
+		if iff, ok := e.From.Instrs[len(e.From.Instrs)-1].(*ssa.If); ok && e.From.Succs[0] != e.From.Succs[1] {
+			d := c.condDesc(iff, e.Succ, loops)
+			if !strings.HasPrefix(d, "loop") && facts[negDesc(d)] {
+				res = true
+			}
+		}
+		memo[e] = res
+		return res
+	}
+}
+
 // guardsOf lists the branch conditions instruction `at` depends on: every If
 // of the function one of whose edges lies on all paths from the entry to
 // `at`, plus disjunctions of equality tests of one value against constants
